@@ -30,6 +30,7 @@ def dispatch (st : DriverState) (sub : String) (args : List String) : DriverStat
   | "schema" | "schemaraw" | "validate" | "vraw" | "inhabits" | "encode" | "tag" | "apply" | "applyp" =>
     (st, Drivers.Schema.handle sub args)
   | "mini" => (st, Drivers.Mini.handle args)
+  | "errclass" => (st, Drivers.Mini.handleErrClass args)
   | _ => (st, "unknown-subcommand")
 
 partial def loop (h : IO.FS.Stream) (out : IO.FS.Stream) (st : DriverState) : IO Unit := do
